@@ -152,6 +152,10 @@ struct FutState {
     poll_log: Vec<(u64, usize)>,
     /// Stamp at which the future returned Ready.
     done_at: u64,
+    /// Value of the future's shared `stage` cell (published by other threads before they wake it)
+    /// read by its most recent poll: a woken future's poll must observe what was published before
+    /// the wake (a wake happens-before the poll it causes).
+    seen_stage: u32,
 }
 
 #[derive(Default)]
@@ -179,6 +183,9 @@ struct Shared {
     poll_yields: u8,
     /// Rendezvous counters of the mt mode.
     rv: [std::sync::atomic::AtomicU32; 4],
+    /// Per future (index modulo): data published (Relaxed) by another thread before it wakes the
+    /// future and read (Relaxed) by the future's poll - the wake is the only synchronisation.
+    stage: [std::sync::atomic::AtomicU32; 32],
     st: Mutex<State>,
 }
 
@@ -202,6 +209,7 @@ impl Shared {
             keep_log,
             poll_yields,
             rv: [const { std::sync::atomic::AtomicU32::new(0) }; 4],
+            stage: [const { std::sync::atomic::AtomicU32::new(0) }; 32],
             st: Mutex::new(State::default()),
         })
     }
@@ -329,8 +337,10 @@ impl Future for SimFut {
         let fid = self.fid;
         yields(sh.poll_yields);
         let at = sh.tick();
+        let seen_stage = sh.stage[fid % 32].load(Ordering::Relaxed);
         let mut guard = sh.lock();
         let st = &mut *guard;
+        st.futs[fid].seen_stage = seen_stage;
         if *self.boxed != fid as u32 {
             problem(st, "future-corrupted", format!("future {fid} carries {}", *self.boxed));
         }
@@ -572,6 +582,7 @@ impl Driver {
                 stash: Vec::new(),
                 polls: 0,
                 poll_log: Vec::new(),
+                seen_stage: 0,
                 done_at: 0,
             });
             let n = script.len();
@@ -1341,6 +1352,7 @@ fn run_thread(sh: &Shared, t: usize, script: &TScript, mut table: Vec<(usize, Op
                 let fid = table[i].0;
                 let w = table[i].1.take().expect("present");
                 let start = sh.tick();
+                sh.stage[fid % 32].fetch_add(1, Ordering::Relaxed);
                 w.wake();
                 let end = sh.tick();
                 ev(start, &[20, t as u64, fid as u64], format!("t{t}: wake fut{fid} invoked"));
@@ -1351,6 +1363,7 @@ fn run_thread(sh: &Shared, t: usize, script: &TScript, mut table: Vec<(usize, Op
                 let Some(i) = pick(&table, sel) else { continue };
                 let fid = table[i].0;
                 let start = sh.tick();
+                sh.stage[fid % 32].fetch_add(1, Ordering::Relaxed);
                 table[i].1.as_ref().expect("present").wake_by_ref();
                 let end = sh.tick();
                 ev(start, &[22, t as u64, fid as u64], format!("t{t}: wake_by_ref fut{fid} invoked"));
@@ -1531,6 +1544,7 @@ impl MtScenario {
             }
         }
         let mut must_repoll: Vec<usize> = Vec::new();
+        let mut stale_seen = false;
         if dr.dq.is_some() {
             let st = sh.lock();
             let last = dr.calls.last().expect("phase 1 polled");
@@ -1540,7 +1554,18 @@ impl MtScenario {
                     continue;
                 }
                 let last_poll = f.poll_log.last().map_or(0, |p| p.0);
-                if wakes.iter().any(|w| w.fid == fid && w.start > last_poll) {
+                // Either a wake started after the last poll began, or the last poll did not see
+                // what a wake had published before waking (all threads are joined: the cell's value
+                // is final). In both cases the flag swap of that wake came after the flag swap of
+                // the most recent deque poll (had it come before, the acquire swap would have made
+                // the published value visible to the poll), so a 0 -> 1 transition and with it a
+                // parent wake must have followed that deque poll's start.
+                let published = sh.stage[fid % 32].load(Ordering::Relaxed);
+                let stale = published > 0 && f.seen_stage < published && !f.poll_log.is_empty();
+                if stale {
+                    stale_seen = true;
+                }
+                if wakes.iter().any(|w| w.fid == fid && w.start > last_poll) || stale {
                     must_repoll.push(fid);
                 }
             }
@@ -1556,6 +1581,9 @@ impl MtScenario {
         }
         if !must_repoll.is_empty() {
             sh.lock().probes.push("quiescent-wake-pending");
+        }
+        if stale_seen {
+            sh.lock().probes.push("last-poll-predates-published-state");
         }
         // Final drain by the owner: every future woken since its last poll must be polled now.
         if dr.dq.is_some() {
